@@ -142,7 +142,16 @@ def history_shape_leader_first(recs):
     return False
 
 
-def to_perf(recs, shuffle_rng=None):
+def to_perf(recs, shuffle_rng=None, layout=None):
+    """layout = (cpu, period): which optional sample fields the main event records"""
+    P.set_layout(*(layout or (True, True)))
+    try:
+        return _to_perf(recs, shuffle_rng)
+    finally:
+        P.set_layout(True, True)
+
+
+def _to_perf(recs, shuffle_rng=None):
     out = []
     for r in recs:
         k = r[0]
@@ -223,9 +232,14 @@ def view(profile):
     return out
 
 
-def run_import(samply, recs, d, shuffle_seed=None, extra_args=()):
+_perf_lock = __import__("threading").Lock()
+
+
+def run_import(samply, recs, d, shuffle_seed=None, extra_args=(), layout=None):
     pd = os.path.join(d, "rec.perf.data")
-    open(pd, "wb").write(to_perf(recs, K.SplitMix64(shuffle_seed) if shuffle_seed is not None else None))
+    with _perf_lock:          # the writer's layout is module state
+        data = to_perf(recs, K.SplitMix64(shuffle_seed) if shuffle_seed is not None else None, layout)
+    open(pd, "wb").write(data)
     outp = os.path.join(d, "out.json")
     r = subprocess.run([samply, "import", pd, "--save-only", "-o", outp] + list(extra_args), capture_output=True, text=True, timeout=120)
     if r.returncode != 0 or not os.path.exists(outp):
@@ -305,7 +319,7 @@ def evaluate(prop, verdict_fn, cases, stats, extra_args_of=lambda c: (), wrap=No
         d = os.path.join(base, "h%d" % i)
         os.makedirs(d)
         try:
-            return run_import(samply, c["items"], d, c.get("shuffle"), extra_args_of(c))
+            return run_import(samply, c["items"], d, c.get("shuffle"), extra_args_of(c), c.get("layout"))
         finally:
             shutil.rmtree(d, ignore_errors=True)
 
